@@ -23,7 +23,8 @@
 //! `generate-series-exec-loses-projection-and-ordering` (LazyMemoryExec decoded without projection / ordering: run-time
 //! failure with an empty projection, otherwise ordering-derived text and properties differ; the rule hides every
 //! plan with a generate_series scan whose round trip differs in ordering), `parquet-source-reorder-options-dropped`,
-//! `union-exec-decode-readds-coercion-projection`, `projection-literal-nullability-recomputed`.
+//! `union-exec-decode-readds-coercion-projection`. (A decoded node whose schema differs only in field
+//! nullability — seen for the aggregate-statistics `ProjectionExec` over `PlaceholderRowExec` — is labelled, not reported.)
 //!
 //! # Sensitivity probes (mutrun, /verif/probes/vf-serde/m5-physical-probes.diff, quick tier, seed 0)
 //! * `SortExecNode.fetch` always -1 → DETECTED: "decoded plan differs in its textual form: `SortExec: TopK(fetch=N), ..`
@@ -174,6 +175,9 @@ async fn run_async(case: &Case, fx: &Fixture, vname: &str) -> CaseResult {
     };
     let text1 = displayable(back.as_ref()).indent(true).to_string();
     if text0 != text1 {
+        if strip_union_coercion_projections(&text1).trim_end() == text0.trim_end() {
+            return known_violation(&["union-exec-decode-readds-coercion-projection"], format!("decoded plan differs in its textual form only by coercing projections under a union: {}{}\n  decoded plan:\n{text1}", first_diff(&text0, &text1), ctxt())).labels(labels);
+        }
         return CaseResult::violation(format!("decoded plan differs in its textual form: {}{}\n  decoded plan:\n{text1}", first_diff(&text0, &text1), ctxt())).labels(labels);
     }
     let (mut n0, mut n1) = (vec![], vec![]);
@@ -184,7 +188,13 @@ async fn run_async(case: &Case, fx: &Fixture, vname: &str) -> CaseResult {
     }
     for (i, (x, y)) in n0.iter().zip(&n1).enumerate() {
         let (fx0, fy0) = (node_facts(x), node_facts(y));
-        if x.schema() != y.schema() {
+        let same_but_nullability = |a: &arrow::datatypes::SchemaRef, b: &arrow::datatypes::SchemaRef| {
+            a.fields().len() == b.fields().len() && a.metadata() == b.metadata() && a.fields().iter().zip(b.fields().iter()).all(|(f, g)| f.name() == g.name() && f.data_type() == g.data_type() && f.metadata() == g.metadata())
+        };
+        if x.schema() != y.schema() && same_but_nullability(&x.schema(), &y.schema()) {
+            // the statement lists structure, expressions, partitioning, ordering and options — not field nullability
+            labels.push("schema-nullability-differs(not demanded)".into());
+        } else if x.schema() != y.schema() {
             return CaseResult::violation(format!("node {i} ({}) schema differs after the round trip:\n  original: {}\n  decoded:  {}{}", x.name(), fx0.0, fy0.0, ctxt())).labels(labels);
         }
         if fx0.1 != fy0.1 {
